@@ -74,6 +74,9 @@ func (a *Arguments) Get(argumentIndex int) reflect.Value {
 		e := a.args.Exprs[argumentIndex]
 		switch e.Type() {
 		case NodeUnderscore:
+			if a.pipedVal == nil {
+				a.Panicf("pipe slot marker ('_') used as argument, but no value is piped into the call")
+			}
 			return *a.pipedVal
 		default:
 			return a.runtime.evalPrimaryExpressionGroup(e)
